@@ -679,6 +679,22 @@ def ra_judge(vec, res):
     """[] if the outcome is one an independent decoder allows, else a list of (field, detail)."""
     if res.get("panic"):
         return [("panic", res["panic"])]
+    if vec.get("many"):
+        out = []
+        if res["lan"] != vec["many"]:
+            out.append(("table", "LANRouters holds %d routers after %d distinct routers advertised" % (res["lan"], vec["many"])))
+        for k, r in enumerate(res["recs"]):
+            if not r["learned"]:
+                out.append(("table", "router %d of %d is not (or no longer) in the table" % (k + 1, vec["many"])))
+                break
+            d = ra_diff(r["rec"], vec["ref"], r["ethsrc"], True)
+            if d:
+                out += [(f, "record of router %d of %d differs from the reference decoder" % (k + 1, vec["many"])) for f in d]
+                break
+        return out
+    if res.get("lost") or res.get("lan", 0) != res.get("lan_expected", res.get("lan", 0)):
+        return [("table", "a router learned earlier is no longer reported as it was (lost/changed %s, table size %s, expected %s)" %
+                 (res.get("lost"), res.get("lan"), res.get("lan_expected")))]
     first_kept = False
     if "none" not in vec["first"]:
         fr = vec["firstRef"]
@@ -708,6 +724,8 @@ def ra_key(vec, field):
     if "none" not in vec["first"]:
         ids += [o["id"] for o in vec["first"]["opts"]]
     f = field.replace("first.", "")
+    if f == "table":
+        return "C14:RA:table:evicted-or-changed"
     if f == "mtu" and "mtu" in ids:
         return "C14:RA:mtu:KF_MTUOffset"
     if f == "rdnss" and "rdnssEven" in [o["id"] for o in vec["opts"]]:
@@ -755,9 +773,9 @@ def ra_run(ctx, binary, vecs, tag, shared=False):
 
 def ra_failures(vecs, res, suffix=""):
     per_key = {}
-    for v, r in zip(vecs, res):
+    for i, (v, r) in enumerate(zip(vecs, res)):
         for field, detail in ra_judge(v, r):
-            per_key.setdefault(ra_key(v, field) + suffix, []).append((v, r, field, detail))
+            per_key.setdefault(ra_key(v, field) + suffix, []).append((v, r, field, detail, i))
     return per_key
 
 
@@ -773,8 +791,12 @@ def ra_check(ctx, binary, vecs, tag, stats):
     for key, items in sorted(per_key.items()):
         sh = key.endswith(":shared-buffer")
         base = key[:-len(":shared-buffer")] if sh else key
-        for v, r, field, detail in items[:2]:
-            again = ra_run(ctx, binary, [v], "confirm", shared=sh)[0]
+        for v, r, field, detail, idx in items[:2]:
+            if field == "table" and not v.get("many"):
+                # depends on the routers the same handler learned before: re-run the whole batch
+                again = ra_run(ctx, binary, vecs, "confirm-all", shared=sh)[idx]
+            else:
+                again = ra_run(ctx, binary, [v], "confirm", shared=sh)[0]
             if not any(ra_key(v, f) == base for f, _ in ra_judge(v, again)):
                 raise vlib.InfraError("RA vector failure %s did not reproduce" % key)
             ids = [o["id"] for o in v["opts"]]
@@ -796,19 +818,26 @@ def c10_part(ctx):
     binary = build(ctx)
     _, vecs = ra_vectors(ctx, "single", 2 if ctx.quick else 3, 1)
     _, vecs2 = ra_vectors(ctx, "update", 1, 1 if ctx.quick else 2)
+    _, vecs3 = ra_vectors(ctx, "many", 1, 1)
     ndiff = 0
     seen = set()
-    for tag, vs in (("c10-single", vecs), ("c10-update", vecs2)):
+    for tag, vs in (("c10-single", vecs), ("c10-update", vecs2), ("c10-many", vecs3)):
         fresh = ra_run(ctx, binary, vs, tag)
         shared = ra_run(ctx, binary, vs, tag, shared=True)
-        for v, a, b in zip(vs, fresh, shared):
+        for idx, (v, a, b) in enumerate(zip(vs, fresh, shared)):
             if a == b:
                 continue
             ndiff += 1
             fields = sorted(k for k in set(a) | set(b) if a.get(k) != b.get(k))
             sub = []
             for k in fields:
-                if isinstance(a.get(k), dict) and isinstance(b.get(k), dict):
+                if k == "recs":          # many-routers vectors: a list of {learned, rec}
+                    for x, y in zip(a[k], b[k]):
+                        if x != y:
+                            rx, ry = x.get("rec") or {}, y.get("rec") or {}
+                            sub += sorted(f for f in set(rx) | set(ry) if rx.get(f) != ry.get(f)) or ["learned"]
+                            break
+                elif isinstance(a.get(k), dict) and isinstance(b.get(k), dict):
                     sub += ["%s" % f for f in sorted(set(a[k]) | set(b[k])) if a[k].get(f) != b[k].get(f)]
                 else:
                     sub.append(k)
@@ -819,11 +848,16 @@ def c10_part(ctx):
                 seen.add(key)
                 a2 = ra_run(ctx, binary, [v], "c10-confirm")[0]
                 b2 = ra_run(ctx, binary, [v], "c10-confirm", shared=True)[0]
+                if a2 == b2 and not v.get("many"):
+                    # may depend on the routers the same handler learned before: re-run the whole batch
+                    a2 = ra_run(ctx, binary, vs, "c10-confirm-all")[idx]
+                    b2 = ra_run(ctx, binary, vs, "c10-confirm-all", shared=True)[idx]
                 if a2 == b2:
                     raise vlib.InfraError("shared-buffer difference %s did not reproduce" % key)
                 ctx.report(key, "router record after RA %s %s depends on the receive buffer being left alone: field %s" %
                            (v["h"]["id"], [o["id"] for o in v["opts"]], f), {"family": "ra", "vector": v, "field": f, "shared": True})
-    return len(vecs) + len(vecs2), len(vecs) + len(vecs2), ndiff
+    nv = len(vecs) + len(vecs2) + len(vecs3)
+    return nv, nv, ndiff
 
 
 def replay_ra(ctx, binary, obj, path):
@@ -991,6 +1025,9 @@ def run_c14(ctx):
     r, vecs2 = ra_vectors(ctx, "update", 1, 1 if quick else 2)
     states, trans = states + r.distinct, trans + r.generated
     ra["update"] = ra_check(ctx, binary, vecs2, "update", stats)
+    r, vecs3 = ra_vectors(ctx, "many", 1, 1)
+    states, trans = states + r.distinct, trans + r.generated
+    ra["many_routers"] = ra_check(ctx, binary, vecs3, "many", stats)
     cov["ra_learning"] = ra
 
     if not quick:
@@ -1003,7 +1040,7 @@ def run_c14(ctx):
             total += res["lines"]
         cov["tlc"].update(liveness(ctx, fam, base))
 
-    nvec = len(vecs) + len(vecs2)
+    nvec = len(vecs) + len(vecs2) + len(vecs3)
     cov.update({
         "states": states, "transitions": trans,
         "traces_validated_against_impl": nbeh,
